@@ -180,6 +180,129 @@ impl Uf for UfInt {
     }
 }
 
+// ---------------------------------------------------------------------------------------------------
+// Abandoned operations: an element type whose `Clone` can be made to give up (panic) once. The fuse is
+// armed only for `find` of an element the instance has never seen, and only for the *first* clone the
+// library makes in that call (before it has recorded anything about the element): the caller catches the
+// panic and carries on with the same instance, which must behave as if the call had not been made.
+thread_local! { static FUSE: std::cell::Cell<u32> = std::cell::Cell::new(0); }
+
+#[derive(Debug, PartialEq, Eq, Hash)]
+pub struct Fragile(u16);
+
+impl Clone for Fragile {
+    fn clone(&self) -> Self {
+        FUSE.with(|f| {
+            let v = f.get();
+            if v > 0 {
+                f.set(v - 1);
+                if v == 1 {
+                    panic!("vharness: Clone gives up (deliberate)");
+                }
+            }
+        });
+        Fragile(self.0)
+    }
+}
+
+/// ops: ["unite",a,b] | ["find",a] | ["abandoned_find",a]
+pub fn run_fragile_history(ctx: &mut Ctx, universe: usize, ops: &[(u8, usize, usize)]) -> u64 {
+    let input = || json!({"type": "Partition<Fragile> (abandoned operations)", "universe": universe, "fragile_ops": ops.iter().map(|(k, a, b)| json!([(["unite", "find", "abandoned_find"][*k as usize]), a, b])).collect::<Vec<_>>()});
+    let mut p: Partition<Fragile> = Partition::new();
+    let mut model = QuickFind::new(universe);
+    let mut seen = vec![false; universe];
+    let mut judged = 0u64;
+    let mut abandoned = 0u64;
+    for (step, &(kind, a, b)) in ops.iter().enumerate() {
+        match kind {
+            0 => {
+                if let Err(pn) = observe(|| p.unite(&Fragile(a as u16), &Fragile(b as u16))) {
+                    ctx.violation(&format!("panic@{}", pn.short_loc()), "Partition<Fragile>", input(), json!({"step": step, "panic": pn.to_json()}), "no panic");
+                    return judged;
+                }
+                model.union(a, b);
+                seen[a] = true;
+                seen[b] = true;
+            }
+            1 => {
+                match observe(|| p.find(&Fragile(a as u16))) {
+                    Ok(r) => {
+                        judged += 1;
+                        seen[a] = true;
+                        if (r.0 as usize) >= universe || !model.same(a, r.0 as usize) {
+                            ctx.violation("representative-not-in-class", "Partition<Fragile>", input(), json!({"step": step, "element": a, "representative": r.0}), "a representative is a member of its class");
+                            return judged;
+                        }
+                    }
+                    Err(pn) => {
+                        ctx.violation(&format!("panic@{}", pn.short_loc()), "Partition<Fragile>", input(), json!({"step": step, "panic": pn.to_json()}), "no panic");
+                        return judged;
+                    }
+                }
+            }
+            _ => {
+                if seen[a] {
+                    continue;
+                }
+                FUSE.with(|f| f.set(1));
+                let r = observe(|| p.find(&Fragile(a as u16)));
+                let left = FUSE.with(|f| f.replace(0));
+                if r.is_err() && left == 0 {
+                    abandoned += 1;
+                } else if r.is_ok() {
+                    seen[a] = true;
+                }
+            }
+        }
+    }
+    // final full query (fuse disarmed)
+    let reps: Vec<Option<u16>> = (0..universe).map(|x| observe(|| p.find(&Fragile(x as u16))).ok().map(|r| r.0)).collect();
+    for x in 0..universe {
+        for y in 0..universe {
+            judged += 1;
+            let same_lib = reps[x].is_some() && reps[x] == reps[y];
+            if reps[x].is_none() || same_lib != model.same(x, y) {
+                ctx.violation(
+                    "same-representative-iff-connected",
+                    "Partition<Fragile>",
+                    input(),
+                    json!({"x": x, "y": y, "rep_x": reps[x], "rep_y": reps[y], "connected_in_model": model.same(x, y), "abandoned_calls": abandoned}),
+                    "two elements have the same representative exactly when connected by the unions applied (a find abandoned because the element's Clone panicked applies none)",
+                );
+                return judged;
+            }
+        }
+    }
+    if abandoned > 0 {
+        ctx.count("histories_with_an_abandoned_find");
+        ctx.add("abandoned_find_calls", abandoned);
+    }
+    judged
+}
+
+fn fragile_histories(cfg: &Cfg) -> Ctx {
+    let seed = cfg.seed;
+    par_range(cfg, cfg.tier.pick(150_000, 3_000_000), |ctx, k| {
+        let mut rng = Rng::stream(seed, 0x20_F000_0000 + k as u64);
+        let universe = 6 + rng.below(6);
+        let len = 6 + rng.below(14);
+        let ops: Vec<(u8, usize, usize)> = (0..len)
+            .map(|_| {
+                let a = rng.below(universe);
+                let b = rng.below(universe);
+                match rng.below(8) {
+                    0 | 1 | 2 => (2u8, a, 0),
+                    3 | 4 | 5 | 6 => (0u8, a, b),
+                    _ => (1u8, a, 0),
+                }
+            })
+            .collect();
+        let j = run_fragile_history(ctx, universe, &ops);
+        ctx.evals(j);
+        ctx.nontrivial(digest(&("fragile", &ops)));
+    })
+}
+
 const INSTANCES: usize = 3;
 
 /// Expected output of `classes(list)`: classes in first-occurrence order, members in list order.
@@ -531,8 +654,10 @@ pub fn run(cfg: &Cfg) -> Report {
     run_typed::<UfString>(cfg, &mut report, ex - 1, rn / 2);
     run_typed::<UfPair>(cfg, &mut report, ex - 1, rn / 2);
     run_typed::<UfCoarse>(cfg, &mut report, ex - 1, rn / 2);
+    report.absorb(fragile_histories(cfg));
+    report.require_counter("histories_with_an_abandoned_find", 1000);
 
-    report.rule = "histories of unite/find/classes/clone over 3 live instances (originals and clones interleaved) for IntPartition and Partition<usize|String|(u8,u8)>: all histories of the exhaustive length over a 16-letter operation alphabet on a 4-element universe, plus random histories of ~200 operations over 8/16/64 elements in three observation modes (full queries after each step; queries only through fresh clones; long unite-only stretches then query bursts). Non-trivial = at least one union joining two multi-element classes and at least one operation on an instance after it took part in a clone; distinct = distinct history digests".into();
+    report.rule = "histories of unite/find/classes/clone over 3 live instances (originals and clones interleaved) for IntPartition and Partition<usize|String|(u8,u8)>: all histories of the exhaustive length over a 16-letter operation alphabet on a 4-element universe, plus histories on Partition<Fragile> in which a find of a never-seen element is abandoned (the element's Clone panics once, the panic is caught, the instance is used on), plus random histories of ~200 operations over 8/16/64 elements in three observation modes (full queries after each step; queries only through fresh clones; long unite-only stretches then query bursts). Non-trivial = at least one union joining two multi-element classes and at least one operation on an instance after it took part in a clone; distinct = distinct history digests".into();
     report.explanation = "every answer compared with a label-array partition per instance (quick-find); representative stability judged on the instance itself; clone independence judged in both directions".into();
     report.note("exhaustive_subuniverses", json!([format!("all operation histories of length {} over the 16-operation alphabet on a 4-element universe, for each of the four partition types (length 4 for String / pair)", ex)]));
     report.assume("lists passed to classes() are duplicate-free; element types with re-entrant Hash/Eq are outside the property");
@@ -545,6 +670,19 @@ pub fn run(cfg: &Cfg) -> Report {
 
 pub fn replay(ctx: &mut Ctx, input: &Value) -> bool {
     let ty = input.get("type").and_then(|x| x.as_str()).unwrap_or("");
+    if let Some(fo) = input.get("fragile_ops").and_then(|x| x.as_array()) {
+        let universe = input.get("universe").and_then(|x| x.as_u64()).unwrap_or(0) as usize;
+        let ops: Vec<(u8, usize, usize)> = fo
+            .iter()
+            .filter_map(|o| {
+                let a = o.as_array()?;
+                let k = match a.get(0)?.as_str()? { "unite" => 0u8, "find" => 1, _ => 2 };
+                Some((k, a.get(1)?.as_u64()? as usize, a.get(2)?.as_u64()? as usize))
+            })
+            .collect();
+        run_fragile_history(ctx, universe, &ops);
+        return true;
+    }
     let universe = input.get("universe").and_then(|x| x.as_u64()).unwrap_or(0) as usize;
     let ops: Option<Vec<Op>> = input.get("ops").and_then(|x| x.as_array()).map(|a| a.iter().filter_map(Op::from_json).collect());
     let ops = match ops {
